@@ -5,8 +5,10 @@ package dkg
 
 import (
 	"context"
+	"math/big"
 
 	"github.com/DOSNetwork/core/log"
+	"github.com/dedis/kyber"
 )
 
 // Verification hooks for the panic-freedom property (build tag verif): thin
@@ -40,3 +42,6 @@ func (s *VerifPSession) Pending(sessionID string) bool { _, ok := s.req[sessionI
 func VerifPExchangePub(ctx context.Context, selfPubc chan interface{}, peerPubc chan []interface{}, groupIds [][]byte, sessionID string) (chan []*PublicKey, chan error) {
 	return exchangePub(ctx, log.New("module", "dkg"), selfPubc, peerPubc, nil, groupIds, sessionID)
 }
+
+// VerifPDecodePubKey is decodePubKey.
+func VerifPDecodePubKey(pubKey kyber.Point) ([4]*big.Int, error) { return decodePubKey(pubKey) }
